@@ -88,6 +88,28 @@ PROPS = {
                      "evaluation = one complete listing, one token / size probe, one internal expand or check; non-trivial = a listing that needed >= 2 pages, a token probe, or an internal consumer run over more than one page",
                 assumptions=["tokens are treated as opaque except that the token issued after row i of an iteration, sent again with the same query and size on an unchanged store, must give the same continuation",
                              "the writer runs between page fetches (deterministic interleaving), not concurrently with a page query"]),
+    "C08": dict(test="TestC08", level="exploration", runs=[("", "plain", 16)], timeout=(900, 5400), floor=(186000, 8000),
+                rule="case = generated (configuration loaded as AST / OPL / OPL strict, relationships incl. adversarial names, global max-depth in {2,3,5,8}, limit.max_batch_check_size in {5,8}) + ~18 probe tuples "
+                     "(stored, generated queries, adversarial names, unseen names, unknown namespace, unknown subject-set namespace, undeclared relation) x max-depth {absent,0,1,2,3,big,negative} "
+                     "x {REST GET/POST mirror + openapi, gRPC Check with tuple and with the deprecated flat fields} + ~14 batches (sizes 0..limit and limit+1, duplicates, a shuffle, an invalid entry at every position) "
+                     "through REST and gRPC batch check, all on one registry; evaluation = one oracle decision (one transport answer or one batch entry judged against the engine's decision for that tuple and depth, "
+                     "one mirror/openapi status rule, one batch request); a disagreement is re-run 8x per side interleaved and only disjoint outcome sets are a violation "
+                     "(the rest is counted as nondeterministic_under_binding_limit); "
+                     "non-trivial = a (case, probe, max-depth) point where the engine answers 'allowed' for a tuple that is not itself stored, or where a depth/width cut was logged; "
+                     "or a batch whose entries have at least two different engine decisions (so order and cross-talk are observable), distinct by (case, batch, transport)",
+                assumptions=["decision = allowed | denied; an error answer is 'no decision': it equals 'not allowed' where the property says so (unknown namespace, malformed entry, engine error) and is reported under its own signature class where the engine decides",
+                             "null batch entries and absent gRPC subjects are C13's inputs and are not sent; names are valid UTF-8 (JSON and proto3 cannot carry others)",
+                             "checks that hit the 10 s request timeout give no decision; the case is then abandoned (also after 90 s), counted, never judged"]),
+    "C09": dict(test="TestC09", level="exploration", runs=[("", "plain", 16)], timeout=(900, 5400), floor=(37000, 1600),
+                rule="case = a relationship multiset (chain, layered diamond, cycle / self loop, node with 101-250 children, 'reached deep first, shallow later' shape, random graph, C02's chain generator with its rewrite configuration) "
+                     "inserted 8 (thorough: 16) times into the wiped database (random shard ids = random expansion order) x 1-2 root subject sets x request depth {1..6, 0, -2, 1000000} under 1-2 global limits "
+                     "x {expand engine + ToTree, REST GET /relation-tuples/expand, gRPC Expand}; evaluation = one returned tree judged (root, every edge is a stored relationship with multiplicity, no subject set expanded twice, "
+                     "levels <= effective depth, every subject at distance <= eff-1 present; REST/gRPC trees equal to the engine's tree inherit its verdict), plus one differential per (case, root): subject-id nodes of the "
+                     "tree = subjects allowed by the real check engine (rewrite-free configurations, depth not binding); "
+                     "non-trivial = an engine tree in which a subject set below the root is expanded, or a subject set with relationships recurs as a leaf, or a node has more than 100 children; distinct by (case, root, effective depth, tree)",
+                assumptions=["depth convention: root = level 1, a tree has at most eff levels and shows the subjects at edge distance <= eff-1 (internal/expand/engine.go, keto's test 'respects max depth')",
+                             "which child is expanded first is keto's random shard_id order: a replay re-inserts the multiset and may need several insertions to show an order-dependent defect again (8/16 per case)",
+                             "an expansion that does not return within 20 s is inconclusive unless the goroutine dump shows buildTreeRecursive nested deeper than the effective depth"]),
     "C16": dict(test="TestC16", level="exploration", runs=[("", "plain", 16)], timeout=(900, 5400), floor=(25000, 600),
                 rule="case = one generated batch of 1..350 API tuples over a pool of adversarial names (modes distinct / repeat-heavy / obj-eq-subj / mixed / page-edge / adversarial-small), "
                      "run through the real Mapper + SQLite persister (FromTuple/ToTuple/FromQuery/ToQuery/FromSubjectSet/ToTree, MapStringsToUUIDs[ReadOnly], MapUUIDsToStrings) and, for the valid-UTF-8 tuples, "
